@@ -1,6 +1,7 @@
 import Driver.Util
 import Model.Borders
 import Model.CellAttr
+import Model.EncodeMulti
 namespace Driver
 open Lean Model.Broadcast Model.Borders Model.CellAttr
 
@@ -39,7 +40,19 @@ def opCellAttr (j : Json) : R Json := do
     ("model", jList (jList (fun x => jOpt Json.str x.1)) grid),
     ("spec", jList (jList (fun x => jOpt Json.str x.2)) grid)]
 
+/-- the page borders `_encode_multi_section` leaves to each of `n` sections: `(sectionDoc d n i s).page.borderFirst /
+borderLast` for `i = 0 … n − 1` (they depend on `d.page`, `n` and `i` only) -/
+def opSectionBorders (j : Json) : R Json := do
+  let n ← natF j "n"
+  let d : Model.EncodeMulti.MDoc :=
+    { (default : Model.EncodeMulti.MDoc) with
+      page := { (default : Model.Encode.Page) with borderFirst := ← strF j "pageFirst", borderLast := ← strF j "pageLast" } }
+  return jList (fun i =>
+    let sd := Model.EncodeMulti.sectionDoc d n i default
+    Json.arr #[Json.str sd.page.borderFirst, Json.str sd.page.borderLast]) (List.range n)
+
 namespace Borders
-def ops : List (String × (Json → R Json)) := [("borders", opBorders), ("cell_attr", opCellAttr)]
+def ops : List (String × (Json → R Json)) :=
+  [("borders", opBorders), ("cell_attr", opCellAttr), ("section_borders", opSectionBorders)]
 end Borders
 end Driver
